@@ -1,6 +1,1258 @@
 import CoreBGP.Model.Peer
+import CoreBGP.Lemmas.PeerLocal
 /-! Helper lemmas and the shared inductive invariant of the L2 model (never property statements). -/
 namespace CoreBGP.Lemmas
 open CoreBGP CoreBGP.Model
+open CoreBGP.Lemmas.PeerLocal
+set_option linter.unusedSimpArgs false
+
+/-! ## the invariant -/
+
+/-- transitions an inbound FSM may request: it never *rises* to Idle or Connect -/
+def innT (t : Trans) : Prop := (t.to = .idle ∨ t.to = .connect) → t.to.rank < t.frm.rank
+
+instance (t : Trans) : Decidable (innT t) := by unfold innT; infer_instance
+
+/-- control locations of an inbound FSM -/
+def innPc : FPc → Prop
+  | .req t | .wait t => innT t
+  | .run s => s ≠ .idle ∧ s ≠ .connect
+  | .errSend s d _ => innT ⟨s, d⟩
+  | _ => True
+
+/-- what the manager's bookkeeping (`present`, `st`) says about one FSM -/
+structure FOk (x : F) (present : Bool) (st : St) : Prop where
+  empty : present = false → x.pc = .absent
+  st_dis : present = false → st = .disabled
+  pres : present = true → x.pc ≠ .absent
+  inEst_run : x.inEst = true → x.pc = .run .established
+  run_st : ∀ r, x.pc = .run r → st = r
+
+/-- static analysis of the manager's continuation: `eo` / `ei` = "the out / in slot is known to be
+empty when the head instruction starts"; `hd` = "this is the head of `todo`" -/
+def okT : Bool → Bool → Bool → List Instr → Prop
+  | _, _, _, [] => True
+  | _, eo, ei, .logT _ _ _ :: rest => okT false eo ei rest
+  | _, eo, ei, .logErr _ :: rest => okT false eo ei rest
+  | _, _, _, .handle i t :: rest => rest = [] ∧ (i = .inn → innT t)
+  | _, eo, ei, .sendT i t :: rest =>
+    (t.to = .established → (match i with | .out => ei | .inn => eo) = true) ∧
+    (i = .inn → t.to ≠ .idle ∧ t.to ≠ .connect) ∧ okT false eo ei rest
+  | _, _, ei, .disableLog .out :: rest => okT false true ei rest
+  | _, eo, _, .disableLog .inn :: rest => okT false eo true rest
+  | _, _, ei, .disable .out :: rest => okT false true ei rest
+  | _, eo, _, .disable .inn :: rest => okT false eo true rest
+  | _, _, ei, .enable .out _ :: rest => okT false false ei rest
+  | _, eo, _, .enable .inn w :: rest => w = true ∧ okT false eo false rest
+  | hd, _, _, .collSel _ t :: rest => hd = true ∧ rest = [] ∧ t.to = .openConfirm
+  | _, eo, ei, .damp :: rest => eo = true ∧ ei = true ∧ rest = []
+  | _, eo, ei, .finish :: rest => eo = true ∧ ei = true ∧ rest = []
+
+def stopLike : Instr → Bool
+  | .disableLog _ | .finish => true
+  | _ => false
+
+structure PInv (p : Bool) (s : PState) : Prop where
+  pas : s.passive = p
+  pas_out : s.passive = true → s.presentO = false
+  fo_ok : FOk s.fo s.presentO s.stO
+  fi_ok : FOk s.fi s.presentI s.stI
+  fi_inn : innPc s.fi.pc
+  todo_ok : okT true (!s.presentO) (!s.presentI) s.todo
+  coll : ∀ i t rest, s.todo = .collSel i t :: rest →
+    (match i with | .out => s.stI | .inn => s.stO) ≠ .established
+  mutex : ¬ (s.stO = .established ∧ s.stI = .established)
+  hist_ok : s.hist = some (if s.fo.inEst || s.fi.inEst then .up else .idle)
+  hold : s.holdDown = true → s.presentO = false ∧ s.presentI = false ∧ s.todo.all stopLike = true
+  timer : s.pdone = false → s.holdDown = s.timerArmed
+  done : s.pdone = true → s.todo = [] ∧ s.presentO = false ∧ s.presentI = false
+
+/-! ## `okT` is monotone -/
+
+theorem okT_mono : ∀ (l : List Instr) (hd eo ei hd' eo' ei' : Bool),
+    (hd = true → hd' = true) → (eo = true → eo' = true) → (ei = true → ei' = true) →
+    okT hd eo ei l → okT hd' eo' ei' l := by
+  intro l
+  induction l with
+  | nil => intros; trivial
+  | cons a rest ih =>
+    intro hd eo ei hd' eo' ei' h1 h2 h3 h
+    cases a with
+    | logT i f t => exact ih _ _ _ _ _ _ (by simp) h2 h3 h
+    | logErr i => exact ih _ _ _ _ _ _ (by simp) h2 h3 h
+    | handle i t => exact h
+    | sendT i t =>
+      obtain ⟨a, b, c⟩ := h
+      refine ⟨?_, b, ih _ _ _ _ _ _ (by simp) h2 h3 c⟩
+      intro ht
+      have := a ht
+      cases i <;> simp_all
+    | disableLog i => cases i <;> exact ih _ _ _ _ _ _ (by simp) (by simp_all) (by simp_all) h
+    | disable i => cases i <;> exact ih _ _ _ _ _ _ (by simp) (by simp_all) (by simp_all) h
+    | enable i w =>
+      cases i
+      · exact ih _ _ _ _ _ _ (by simp) (by simp) h3 h
+      · exact ⟨h.1, ih _ _ _ _ _ _ (by simp) h2 (by simp) h.2⟩
+    | collSel i t => exact ⟨h1 h.1, h.2⟩
+    | damp => exact ⟨h2 h.1, h3 h.2.1, h.2.2⟩
+    | finish => exact ⟨h2 h.1, h3 h.2.1, h.2.2⟩
+
+/-- a popped continuation is fine at the head, with whatever is known then -/
+theorem okT_weaken {l : List Instr} {hd eo ei : Bool} (eo' ei' : Bool) (h : okT hd eo ei l)
+    (h2 : eo = true → eo' = true) (h3 : ei = true → ei' = true) : okT true eo' ei' l :=
+  okT_mono l _ _ _ _ _ _ (by simp) h2 h3 h
+
+/-! ## `applyCb` only touches the ghost history -/
+
+def cbHist (l : Label) (h : Option Spec.HState) : Option Spec.HState :=
+  match l with
+  | .onEstablished _ => (h.bind (Spec.hstep · .estEnter)).bind (Spec.hstep · .estExit)
+  | .onClose _ => (h.bind (Spec.hstep · .closeEnter)).bind (Spec.hstep · .closeExit)
+  | .handler _ => (h.bind (Spec.hstep · .hEnter)).bind (Spec.hstep · .hExit)
+  | _ => h
+
+theorem applyCb_eq (l : Label) (s : PState) : applyCb l s = { s with hist := cbHist l s.hist } := by
+  cases l <;> rfl
+
+/-- effect of an FSM step with label `l` on that FSM's `inEst` flag -/
+def cbEffect (l : Label) (a a' : Bool) : Prop :=
+  match l with
+  | .onEstablished _ => a = false ∧ a' = true
+  | .onClose _ => a = true ∧ a' = false
+  | .handler _ => a = true ∧ a' = true
+  | _ => a' = a
+
+theorem hist_step {l : Label} {h : Option Spec.HState} {a a' b : Bool}
+    (hh : h = some (if a || b then .up else .idle)) (he : cbEffect l a a')
+    (hb : a' = true → b = false) (hb' : a = true → b = false) :
+    cbHist l h = some (if a' || b then .up else .idle) := by
+  subst hh
+  cases l <;> cases a <;> cases a' <;> cases b <;> simp_all [cbEffect, cbHist, Spec.hstep]
+
+/-! ## FSM steps -/
+
+theorem FOk.present_of_pc {x : F} {p : Bool} {st : St} (h : FOk x p st) (hp : x.pc ≠ .absent) : p = true := by
+  cases p
+  · exact absurd (h.empty rfl) hp
+  · rfl
+
+/-- result of an FSM step: bookkeeping stays right, the `inEst` flag moves with the label -/
+structure FStepOk (l : Label) (x y : F) (p : Bool) (st : St) : Prop where
+  ok : FOk y p st
+  cb : cbEffect l x.inEst y.inEst
+  inn : innPc x.pc → innPc y.pc
+  est : (∀ j, l = .onEstablished j → x.pc = .run .established)
+
+theorem fOnClose_ok {i : Dir} {x y : F} {l : Label} {p : Bool} {st : St}
+    (h : FOk x p st) (hm : (l, y) ∈ fOnClose i x) :
+    FStepOk l x y p st ∧ l ≠ .dial := by
+  have hp : x.pc ≠ .absent := by
+    intro h0; simp [fOnClose, h0] at hm
+  have hpt := h.present_of_pc hp
+  subst hpt
+  obtain ⟨h1, h2, h3, h4, h5⟩ := h
+  unfold fOnClose at hm
+  repeat' split at hm
+  all_goals simp at hm
+  all_goals obtain ⟨rfl, rfl⟩ := hm
+  all_goals refine ⟨⟨⟨?_, ?_, ?_, ?_, ?_⟩, ?_, ?_, ?_⟩, ?_⟩ 
+  all_goals simp_all [cbEffect, innPc, F.dropConn, innT]
+
+
+theorem runOutcomes_ok {i : Dir} {x y : F} {l : Label} {p : Bool} {st s : St}
+    (h : FOk x p st) (hs : x.pc = .run s) (hm : (l, y) ∈ runOutcomes i x s) :
+    FStepOk l x y p st ∧ (l = .dial → (i = .out ∨ s = .idle ∨ s = .connect)) := by
+  have hp : x.pc ≠ .absent := by simp [hs]
+  have hpt := h.present_of_pc hp
+  subst hpt
+  obtain ⟨h1, h2, h3, h4, h5⟩ := h
+  unfold runOutcomes at hm
+  cases s
+  case disabled => simp at hm
+  case idle =>
+    simp at hm
+    obtain ⟨rfl, rfl⟩ := hm
+    refine ⟨⟨⟨?_, ?_, ?_, ?_, ?_⟩, ?_, ?_, ?_⟩, ?_⟩
+    all_goals simp_all [cbEffect, innPc, F.dropConn, innT]
+  case connect =>
+    simp at hm
+    rcases hm with ⟨rfl, rfl⟩ | ⟨rfl, rfl⟩ | ⟨rfl, rfl⟩
+    all_goals refine ⟨⟨⟨?_, ?_, ?_, ?_, ?_⟩, ?_, ?_, ?_⟩, ?_⟩
+    all_goals simp_all [cbEffect, innPc, F.dropConn, innT]
+  case active =>
+    simp only at hm
+    split at hm
+    · simp at hm
+      rcases hm with ⟨rfl, rfl⟩ | ⟨rfl, rfl⟩
+      all_goals refine ⟨⟨⟨?_, ?_, ?_, ?_, ?_⟩, ?_, ?_, ?_⟩, ?_⟩
+      all_goals simp_all [cbEffect, innPc, F.dropConn, innT]
+    · split at hm
+      · simp at hm
+        obtain ⟨rfl, rfl⟩ := hm
+        refine ⟨⟨⟨?_, ?_, ?_, ?_, ?_⟩, ?_, ?_, ?_⟩, ?_⟩
+        all_goals simp_all [cbEffect, innPc, F.dropConn, innT]
+      · simp at hm
+  case openSent =>
+    simp only [List.mem_append, List.mem_singleton, Prod.mk.injEq] at hm
+    rcases hm with ⟨rfl, rfl⟩ | hm
+    · refine ⟨⟨⟨?_, ?_, ?_, ?_, ?_⟩, ?_, ?_, ?_⟩, ?_⟩
+      all_goals simp_all [cbEffect, innPc, F.dropConn, innT]
+    · split at hm
+      all_goals simp at hm
+      all_goals rcases hm with ⟨rfl, rfl⟩ | ⟨rfl, rfl⟩
+      all_goals refine ⟨⟨⟨?_, ?_, ?_, ?_, ?_⟩, ?_, ?_, ?_⟩, ?_⟩
+      all_goals simp_all [cbEffect, innPc, F.dropConn, innT]
+  case openConfirm =>
+    simp only [List.mem_append, List.mem_cons, List.mem_singleton, Prod.mk.injEq, List.not_mem_nil, or_false] at hm
+    rcases hm with (⟨rfl, rfl⟩ | ⟨rfl, rfl⟩) | hm
+    · refine ⟨⟨⟨?_, ?_, ?_, ?_, ?_⟩, ?_, ?_, ?_⟩, ?_⟩
+      all_goals simp_all [cbEffect, innPc, F.dropConn, innT]
+    · refine ⟨⟨⟨?_, ?_, ?_, ?_, ?_⟩, ?_, ?_, ?_⟩, ?_⟩
+      all_goals simp_all [cbEffect, innPc, F.dropConn, innT]
+    · split at hm
+      all_goals simp at hm
+      all_goals obtain ⟨rfl, rfl⟩ := hm
+      all_goals refine ⟨⟨⟨?_, ?_, ?_, ?_, ?_⟩, ?_, ?_, ?_⟩, ?_⟩
+      all_goals simp_all [cbEffect, innPc, F.dropConn, innT]
+  case established =>
+    simp only at hm
+    split at hm
+    · simp at hm
+      obtain ⟨rfl, rfl⟩ := hm
+      refine ⟨⟨⟨?_, ?_, ?_, ?_, ?_⟩, ?_, ?_, ?_⟩, ?_⟩
+      all_goals simp_all [cbEffect, innPc, F.dropConn, innT]
+    · split at hm
+      · simp at hm
+        obtain ⟨rfl, rfl⟩ := hm
+        refine ⟨⟨⟨?_, ?_, ?_, ?_, ?_⟩, ?_, ?_, ?_⟩, ?_⟩
+        all_goals simp_all [cbEffect, innPc, F.dropConn, innT]
+      · simp only [List.mem_append, List.mem_cons, List.mem_singleton, Prod.mk.injEq, List.not_mem_nil, or_false] at hm
+        rcases hm with (⟨rfl, rfl⟩ | ⟨rfl, rfl⟩) | hm
+        · refine ⟨⟨⟨?_, ?_, ?_, ?_, ?_⟩, ?_, ?_, ?_⟩, ?_⟩
+          all_goals simp_all [cbEffect, innPc, F.dropConn, innT]
+        · refine ⟨⟨⟨?_, ?_, ?_, ?_, ?_⟩, ?_, ?_, ?_⟩, ?_⟩
+          all_goals simp_all [cbEffect, innPc, F.dropConn, innT]
+        · split at hm
+          all_goals simp at hm
+          all_goals obtain ⟨rfl, rfl⟩ := hm
+          all_goals refine ⟨⟨⟨?_, ?_, ?_, ?_, ?_⟩, ?_, ?_, ?_⟩, ?_⟩
+          all_goals simp_all [cbEffect, innPc, F.dropConn, innT]
+
+/-- the steps of one FSM, before they are lifted to the peer state -/
+def fRaw (i : Dir) (x : F) : List (Label × F) :=
+  (if x.closed && x.pc.listensClose then fOnClose i x else []) ++
+   (match x.pc with
+    | .run st => runOutcomes i x st
+    | _ => [])
+
+theorem fSteps_eq (s : PState) (i : Dir) :
+    fSteps s i = (fRaw i (s.f i)).map fun (l, y) => (l, applyCb l (s.setF i y)) := rfl
+
+theorem fRaw_ok {i : Dir} {x y : F} {l : Label} {p : Bool} {st : St}
+    (h : FOk x p st) (hm : (l, y) ∈ fRaw i x) :
+    FStepOk l x y p st ∧ (l = .dial → (i = .out ∨ x.pc = .run .idle ∨ x.pc = .run .connect)) := by
+  unfold fRaw at hm
+  rw [List.mem_append] at hm
+  rcases hm with hm | hm
+  · split at hm
+    · have := fOnClose_ok h hm
+      exact ⟨this.1, fun hd => absurd hd this.2⟩
+    · simp at hm
+  · split at hm
+    · rename_i st' hs
+      have := runOutcomes_ok h hs hm
+      refine ⟨this.1, fun hd => ?_⟩
+      rcases this.2 hd with h | h | h <;> simp_all
+    · simp at hm
+
+/-- an FSM inside its session excludes the other one -/
+theorem est_excl {x y : F} {px py : Bool} {sx sy : St} (hx : FOk x px sx) (hy : FOk y py sy)
+    (hm : ¬ (sx = .established ∧ sy = .established)) (h : x.inEst = true) : y.inEst = false := by
+  have h1 := hx.run_st _ (hx.inEst_run h)
+  cases hyi : y.inEst
+  · rfl
+  · have h2 := hy.run_st _ (hy.inEst_run hyi)
+    exact absurd ⟨h1, h2⟩ hm
+
+theorem pinv_fSteps_out {p : Bool} {s s' : PState} {l : Label} (h : PInv p s) (hm : (l, s') ∈ fSteps s .out) :
+    PInv p s' := by
+  rw [fSteps_eq, List.mem_map] at hm
+  obtain ⟨⟨l', y⟩, hmem, heq⟩ := hm
+  simp only [Prod.mk.injEq] at heq
+  obtain ⟨rfl, rfl⟩ := heq
+  obtain ⟨⟨hok, hcb, hinn, hest⟩, -⟩ := fRaw_ok h.fo_ok hmem
+  obtain ⟨h1, h2, h3, h4, h5, h6, h7, h8, h9, h10, h11, h12⟩ := h
+  rw [applyCb_eq]
+  refine ⟨h1, h2, hok, h4, h5, h6, h7, h8, ?_, h10, h11, h12⟩
+  exact hist_step h9 hcb (est_excl hok h4 h8) (est_excl h3 h4 h8)
+
+theorem pinv_fSteps_inn {p : Bool} {s s' : PState} {l : Label} (h : PInv p s) (hm : (l, s') ∈ fSteps s .inn) :
+    PInv p s' := by
+  rw [fSteps_eq, List.mem_map] at hm
+  obtain ⟨⟨l', y⟩, hmem, heq⟩ := hm
+  simp only [Prod.mk.injEq] at heq
+  obtain ⟨rfl, rfl⟩ := heq
+  obtain ⟨⟨hok, hcb, hinn, hest⟩, -⟩ := fRaw_ok h.fi_ok hmem
+  obtain ⟨h1, h2, h3, h4, h5, h6, h7, h8, h9, h10, h11, h12⟩ := h
+  rw [applyCb_eq]
+  have h8' : ¬ (s.stI = .established ∧ s.stO = .established) := fun hh => h8 ⟨hh.2, hh.1⟩
+  refine ⟨h1, h2, h3, hok, hinn h5, h6, h7, h8, ?_, h10, h11, h12⟩
+  have h9' : s.hist = some (if s.fi.inEst || s.fo.inEst then .up else .idle) := by rw [Bool.or_comm]; exact h9
+  have := hist_step h9' hcb (est_excl hok h3 h8') (est_excl h4 h3 h8')
+  rw [Bool.or_comm] at this
+  exact this
+
+
+/-! ## the manager at its main `select` -/
+
+theorem pinv_main_stop {p : Bool} {s : PState} (h : PInv p s) (ht : s.todo = []) (hd : s.pdone = false) :
+    PInv p { s with todo := [.disableLog .out, .disableLog .inn, .finish] } := by
+  obtain ⟨h1, h2, h3, h4, h5, h6, h7, h8, h9, h10, h11, h12⟩ := h
+  refine ⟨h1, h2, h3, h4, h5, ?_, ?_, h8, h9, ?_, h11, ?_⟩
+  · simp [okT]
+  · simp
+  · simpa [stopLike, ht] using h10
+  · simp [hd]
+
+theorem pinv_main_timer {p : Bool} {s : PState} (h : PInv p s) (hd : s.pdone = false) :
+    PInv p { s with todo := [.enable .out false], holdDown := false, timerArmed := false } := by
+  obtain ⟨h1, h2, h3, h4, h5, h6, h7, h8, h9, h10, h11, h12⟩ := h
+  refine ⟨h1, h2, h3, h4, h5, ?_, ?_, h8, h9, ?_, ?_, ?_⟩
+  · simp [okT]
+  · simp
+  · simp
+  · simp
+  · simp [hd]
+
+theorem pinv_main_inConn {p : Bool} {s : PState} (h : PInv p s) (hd : s.pdone = false)
+    (hh : s.holdDown = false) :
+    PInv p { s with todo := [.enable .inn true] } := by
+  obtain ⟨h1, h2, h3, h4, h5, h6, h7, h8, h9, h10, h11, h12⟩ := h
+  refine ⟨h1, h2, h3, h4, h5, ?_, ?_, h8, h9, ?_, h11, ?_⟩
+  · simp [okT]
+  · simp
+  · simp [hh]
+  · simp [hd]
+
+
+theorem FOk.set_pc {x : F} {p : Bool} {st : St} (h : FOk x p st) (pc' : FPc) (hx : x.pc ≠ .absent)
+    (hne : ∀ r, x.pc ≠ .run r) (hnew : pc' ≠ .absent) (hnr : ∀ r, pc' = .run r → st = r) :
+    FOk { x with pc := pc' } p st := by
+  have hp := h.present_of_pc hx
+  subst hp
+  obtain ⟨h1, h2, h3, h4, h5⟩ := h
+  refine ⟨by simp, by simp, by simpa using hnew, ?_, by simpa using hnr⟩
+  intro hi
+  exact absurd (h4 hi) (hne _)
+
+theorem pinv_main_req_out {p : Bool} {s : PState} {t : Trans} (h : PInv p s) (hd : s.pdone = false)
+    (hpc : s.fo.pc = .req t) :
+    PInv p ({ s with todo := [.handle .out t] }.setF .out { s.fo with pc := .wait t }) := by
+  have hpr := h.fo_ok.present_of_pc (by simp [hpc])
+  have hfo := h.fo_ok.set_pc (.wait t) (by simp [hpc]) (by simp [hpc]) (by simp) (by simp)
+  obtain ⟨h1, h2, h3, h4, h5, h6, h7, h8, h9, h10, h11, h12⟩ := h
+  refine ⟨h1, h2, hfo, h4, h5, ?_, ?_, h8, ?_, ?_, h11, ?_⟩
+  · simp [okT, PState.setF]
+  · simp [PState.setF]
+  · simpa [PState.setF] using h9
+  · intro hh
+    have := h10 hh
+    simp_all
+  · simp [PState.setF, hd]
+
+
+theorem pinv_main_req_inn {p : Bool} {s : PState} {t : Trans} (h : PInv p s) (hd : s.pdone = false)
+    (hpc : s.fi.pc = .req t) :
+    PInv p ({ s with todo := [.handle .inn t] }.setF .inn { s.fi with pc := .wait t }) := by
+  have hpr := h.fi_ok.present_of_pc (by simp [hpc])
+  have hfi := h.fi_ok.set_pc (.wait t) (by simp [hpc]) (by simp [hpc]) (by simp) (by simp)
+  obtain ⟨h1, h2, h3, h4, h5, h6, h7, h8, h9, h10, h11, h12⟩ := h
+  refine ⟨h1, h2, h3, hfi, ?_, ?_, ?_, h8, ?_, ?_, h11, ?_⟩
+  · simpa [PState.setF, innPc, hpc] using h5
+  · simpa [okT, PState.setF, innPc, hpc] using h5
+  · simp [PState.setF]
+  · simpa [PState.setF] using h9
+  · intro hh
+    have := h10 hh
+    simp_all
+  · simp [PState.setF, hd]
+
+theorem pinv_main_err_out {p : Bool} {s : PState} {st d : St} {k : EK} (h : PInv p s) (hd : s.pdone = false)
+    (hpc : s.fo.pc = .errSend st d k) :
+    PInv p { s.setF .out { s.fo with pc := .req ⟨st, d⟩ } with
+      todo := .logErr .out :: (if k = .damp then [.disableLog .inn, .disableLog .out, .damp] else []) } := by
+  have hpr := h.fo_ok.present_of_pc (by simp [hpc])
+  have hfo := h.fo_ok.set_pc (.req ⟨st, d⟩) (by simp [hpc]) (by simp [hpc]) (by simp) (by simp)
+  obtain ⟨h1, h2, h3, h4, h5, h6, h7, h8, h9, h10, h11, h12⟩ := h
+  refine ⟨h1, h2, hfo, h4, h5, ?_, ?_, h8, ?_, ?_, h11, ?_⟩
+  · split <;> simp [okT, PState.setF]
+  · simp [PState.setF]
+  · simpa [PState.setF] using h9
+  · intro hh
+    have := h10 hh
+    simp_all
+  · simp [PState.setF, hd]
+
+theorem pinv_main_err_inn {p : Bool} {s : PState} {st d : St} {k : EK} (h : PInv p s) (hd : s.pdone = false)
+    (hpc : s.fi.pc = .errSend st d k) :
+    PInv p { s.setF .inn { s.fi with pc := .req ⟨st, d⟩ } with
+      todo := .logErr .inn :: (if k = .damp then [.disableLog .inn, .disableLog .out, .damp] else []) } := by
+  have hpr := h.fi_ok.present_of_pc (by simp [hpc])
+  have hfi := h.fi_ok.set_pc (.req ⟨st, d⟩) (by simp [hpc]) (by simp [hpc]) (by simp) (by simp)
+  obtain ⟨h1, h2, h3, h4, h5, h6, h7, h8, h9, h10, h11, h12⟩ := h
+  refine ⟨h1, h2, h3, hfi, ?_, ?_, ?_, h8, ?_, ?_, h11, ?_⟩
+  · simpa [PState.setF, innPc, hpc] using h5
+  · split <;> simp [okT, PState.setF]
+  · simp [PState.setF]
+  · simpa [PState.setF] using h9
+  · intro hh
+    have := h10 hh
+    simp_all
+  · simp [PState.setF, hd]
+
+theorem pinv_pMain {p : Bool} {s s' : PState} {l : Label} (h : PInv p s) (ht : s.todo = [])
+    (hm : (l, s') ∈ pMain s) : PInv p s' := by
+  unfold pMain at hm
+  split at hm
+  · simp at hm
+  · rename_i hd
+    simp only [Bool.not_eq_true] at hd
+    simp only [List.mem_append] at hm
+    rcases hm with ((hm | hm) | hm) | hm
+    · split at hm
+      · simp only [List.mem_singleton, Prod.mk.injEq] at hm
+        obtain ⟨-, rfl⟩ := hm
+        exact pinv_main_stop h ht hd
+      · simp at hm
+    · simp only [List.mem_flatMap] at hm
+      obtain ⟨i, -, hm⟩ := hm
+      cases i
+      · split at hm
+        · rename_i t hpc
+          simp only [List.mem_singleton, Prod.mk.injEq] at hm
+          obtain ⟨-, rfl⟩ := hm
+          exact pinv_main_req_out h hd hpc
+        · rename_i st d k hpc
+          simp only [List.mem_singleton, Prod.mk.injEq] at hm
+          obtain ⟨-, rfl⟩ := hm
+          exact pinv_main_err_out h hd hpc
+        · simp at hm
+      · split at hm
+        · rename_i t hpc
+          simp only [List.mem_singleton, Prod.mk.injEq] at hm
+          obtain ⟨-, rfl⟩ := hm
+          exact pinv_main_req_inn h hd hpc
+        · rename_i st d k hpc
+          simp only [List.mem_singleton, Prod.mk.injEq] at hm
+          obtain ⟨-, rfl⟩ := hm
+          exact pinv_main_err_inn h hd hpc
+        · simp at hm
+    · split at hm
+      · simp only [List.mem_singleton, Prod.mk.injEq] at hm
+        obtain ⟨-, rfl⟩ := hm
+        exact pinv_main_timer h hd
+      · simp at hm
+    · split at hm
+      · simp only [List.mem_singleton, Prod.mk.injEq] at hm
+        obtain ⟨-, rfl⟩ := hm
+        exact h
+      · rename_i hc
+        simp only [List.mem_singleton, Prod.mk.injEq] at hm
+        obtain ⟨-, rfl⟩ := hm
+        refine pinv_main_inConn h hd ?_
+        cases hh : s.holdDown <;> simp_all
+
+
+/-! ## the manager inside a continuation -/
+
+theorem PInv.pdone_false {p : Bool} {s : PState} (h : PInv p s) {ins : Instr} {rest : List Instr}
+    (ht : s.todo = ins :: rest) : s.pdone = false := by
+  cases hd : s.pdone
+  · rfl
+  · have := (h.done hd).1
+    rw [ht] at this
+    cases this
+
+theorem PInv.hold_false {p : Bool} {s : PState} (h : PInv p s) {ins : Instr} {rest : List Instr}
+    (ht : s.todo = ins :: rest) (hs : stopLike ins = false) : s.holdDown = false := by
+  cases hd : s.holdDown
+  · rfl
+  · have := (h.hold hd).2.2
+    rw [ht] at this
+    simp [hs] at this
+
+theorem no_coll_of_okT_false {eo ei : Bool} {l : List Instr} (h : okT false eo ei l) (i : Dir) (t : Trans)
+    (rest : List Instr) : l ≠ .collSel i t :: rest := by
+  intro hl
+  subst hl
+  simp [okT] at h
+
+/-- the manager replaces its continuation and touches nothing else -/
+theorem pinv_set_todo {p : Bool} {s : PState} (h : PInv p s) (l : List Instr)
+    (hok : okT true (!s.presentO) (!s.presentI) l)
+    (hcoll : ∀ i t rest, l = .collSel i t :: rest → (match i with | .out => s.stI | .inn => s.stO) ≠ .established)
+    (hhold : s.holdDown = true → l.all stopLike = true) (hd : s.pdone = false) :
+    PInv p { s with todo := l } := by
+  obtain ⟨h1, h2, h3, h4, h5, h6, h7, h8, h9, h10, h11, h12⟩ := h
+  refine ⟨h1, h2, h3, h4, h5, hok, hcoll, h8, h9, ?_, h11, ?_⟩
+  · intro hh
+    exact ⟨(h10 hh).1, (h10 hh).2.1, hhold hh⟩
+  · simp [hd]
+
+/-- … in particular it may drop the head instruction when what follows needs nothing more -/
+theorem pinv_pop {p : Bool} {s : PState} (h : PInv p s) {ins : Instr} {rest : List Instr}
+    (ht : s.todo = ins :: rest) (hok : okT false (!s.presentO) (!s.presentI) rest) :
+    PInv p { s with todo := rest } := by
+  refine pinv_set_todo h rest (okT_weaken _ _ hok id id) ?_ ?_ (h.pdone_false ht)
+  · intro i t r hr
+    exact absurd hr (no_coll_of_okT_false hok i t r)
+  · intro hh
+    have := (h.hold hh).2.2
+    rw [ht] at this
+    simp only [List.all_cons, Bool.and_eq_true] at this
+    exact this.2
+
+theorem pinv_logT {p : Bool} {s s' : PState} {l : Label} {i : Dir} {f t : St} {rest : List Instr}
+    (h : PInv p s) (ht : s.todo = .logT i f t :: rest) (hm : (l, s') ∈ pInstr s (.logT i f t) rest) :
+    PInv p s' := by
+  simp only [pInstr, List.mem_singleton, Prod.mk.injEq] at hm
+  obtain ⟨-, rfl⟩ := hm
+  have := h.todo_ok
+  rw [ht] at this
+  exact pinv_pop h ht this
+
+theorem pinv_logErr {p : Bool} {s s' : PState} {l : Label} {i : Dir} {rest : List Instr}
+    (h : PInv p s) (ht : s.todo = .logErr i :: rest) (hm : (l, s') ∈ pInstr s (.logErr i) rest) :
+    PInv p s' := by
+  simp only [pInstr, List.mem_singleton, Prod.mk.injEq] at hm
+  obtain ⟨-, rfl⟩ := hm
+  have := h.todo_ok
+  rw [ht] at this
+  exact pinv_pop h ht this
+
+
+theorem expandHandle_okT (s : PState) (i : Dir) (t : Trans) (eo ei : Bool) (hinn : i = .inn → innT t) :
+    okT true eo ei (expandHandle s i t) := by
+  unfold expandHandle
+  cases i
+  · simp only [other_out]
+    repeat' split
+    all_goals simp_all [okT]
+  · have hi := hinn rfl
+    unfold innT at hi
+    simp only [other_inn]
+    repeat' split
+    all_goals simp_all [okT]
+    rename_i h1 h2 h3
+    refine ⟨fun h => ?_, fun h => ?_⟩
+    · have := hi (Or.inl h)
+      exact absurd h2 (by simpa [UInt8.not_le] using this)
+    · have := hi (Or.inr h)
+      exact absurd h2 (by simpa [UInt8.not_le] using this)
+
+theorem expandHandle_coll (s : PState) (i : Dir) (t : Trans) (j : Dir) (t' : Trans) (r : List Instr)
+    (h : expandHandle s i t = .collSel j t' :: r) :
+    (match j with | .out => s.stI | .inn => s.stO) ≠ .established := by
+  unfold expandHandle at h
+  cases i
+  · simp only [other_out, PState.st] at h
+    repeat' split at h
+    all_goals simp_all
+    obtain ⟨⟨rfl, -⟩, -⟩ := h
+    simp
+  · simp only [other_inn, PState.st] at h
+    repeat' split at h
+    all_goals simp_all
+    obtain ⟨⟨rfl, -⟩, -⟩ := h
+    simp
+
+theorem pinv_handle {p : Bool} {s s' : PState} {l : Label} {i : Dir} {t : Trans} {rest : List Instr}
+    (h : PInv p s) (ht : s.todo = .handle i t :: rest) (hm : (l, s') ∈ pInstr s (.handle i t) rest) :
+    PInv p s' := by
+  simp only [pInstr, List.mem_singleton, Prod.mk.injEq] at hm
+  obtain ⟨-, rfl⟩ := hm
+  have hok := h.todo_ok
+  rw [ht] at hok
+  obtain ⟨rfl, hinn⟩ := hok
+  rw [List.append_nil]
+  refine pinv_set_todo h _ (expandHandle_okT s i t _ _ hinn) (expandHandle_coll s i t) ?_ (h.pdone_false ht)
+  intro hh
+  have := h.hold_false ht rfl
+  simp [this] at hh
+
+
+theorem pinv_sendT_out {p : Bool} {s : PState} {t t0 : Trans} {rest : List Instr}
+    (h : PInv p s) (ht : s.todo = .sendT .out t :: rest) (hpc : s.fo.pc = .wait t0) :
+    PInv p (({ s with todo := .logT .out t.frm t.to :: rest }.setSt .out t.to).setF .out
+      { s.fo with pc := if t.to = St.disabled then FPc.done else FPc.run t.to }) := by
+  have hpr := h.fo_ok.present_of_pc (by simp [hpc])
+  have hd := h.pdone_false ht
+  have hh := h.hold_false ht rfl
+  obtain ⟨h1, h2, h3, h4, h5, h6, h7, h8, h9, h10, h11, h12⟩ := h
+  rw [ht] at h6
+  obtain ⟨ha, hb, hc⟩ := h6
+  have hie : s.fo.inEst = false := by
+    cases hi : s.fo.inEst
+    · rfl
+    · have := h3.inEst_run hi
+      simp [hpc] at this
+  refine ⟨h1, h2, ?_, h4, h5, ?_, ?_, ?_, ?_, ?_, h11, ?_⟩
+  · refine ⟨?_, ?_, ?_, ?_, ?_⟩ <;> simp_all [PState.setF, PState.setSt]
+    · split <;> simp
+    · intro r hr
+      split at hr <;> simp_all
+  · simpa [PState.setF, PState.setSt, okT] using hc
+  · simp [PState.setF, PState.setSt]
+  · simp only [PState.setF, PState.setSt]
+    rintro ⟨h1', h2'⟩
+    have := ha h1'
+    simp only [Bool.not_eq_true'] at this
+    have := h4.st_dis this
+    simp [this] at h2'
+  · simpa [PState.setF, PState.setSt] using h9
+  · simp [PState.setF, PState.setSt, hh]
+  · simp [PState.setF, PState.setSt, hd]
+
+theorem pinv_sendT_inn {p : Bool} {s : PState} {t t0 : Trans} {rest : List Instr}
+    (h : PInv p s) (ht : s.todo = .sendT .inn t :: rest) (hpc : s.fi.pc = .wait t0) :
+    PInv p (({ s with todo := .logT .inn t.frm t.to :: rest }.setSt .inn t.to).setF .inn
+      { s.fi with pc := if t.to = St.disabled then FPc.done else FPc.run t.to }) := by
+  have hpr := h.fi_ok.present_of_pc (by simp [hpc])
+  have hd := h.pdone_false ht
+  have hh := h.hold_false ht rfl
+  obtain ⟨h1, h2, h3, h4, h5, h6, h7, h8, h9, h10, h11, h12⟩ := h
+  rw [ht] at h6
+  obtain ⟨ha, hb, hc⟩ := h6
+  have hie : s.fi.inEst = false := by
+    cases hi : s.fi.inEst
+    · rfl
+    · have := h4.inEst_run hi
+      simp [hpc] at this
+  refine ⟨h1, h2, h3, ?_, ?_, ?_, ?_, ?_, ?_, ?_, h11, ?_⟩
+  · refine ⟨?_, ?_, ?_, ?_, ?_⟩ <;> simp_all [PState.setF, PState.setSt]
+    · split <;> simp
+    · intro r hr
+      split at hr <;> simp_all
+  · simp only [PState.setF, PState.setSt]
+    split
+    · simp [innPc]
+    · simpa [innPc] using hb rfl
+  · simpa [PState.setF, PState.setSt, okT] using hc
+  · simp [PState.setF, PState.setSt]
+  · simp only [PState.setF, PState.setSt]
+    rintro ⟨h1', h2'⟩
+    have := ha h2'
+    simp only [Bool.not_eq_true'] at this
+    have := h3.st_dis this
+    simp [this] at h1'
+  · simpa [PState.setF, PState.setSt] using h9
+  · simp [PState.setF, PState.setSt, hh]
+  · simp [PState.setF, PState.setSt, hd]
+
+theorem pinv_sendT {p : Bool} {s s' : PState} {l : Label} {i : Dir} {t : Trans} {rest : List Instr}
+    (h : PInv p s) (ht : s.todo = .sendT i t :: rest) (hm : (l, s') ∈ pInstr s (.sendT i t) rest) :
+    PInv p s' := by
+  simp only [pInstr, List.mem_append] at hm
+  rcases hm with hm | hm
+  · split at hm
+    · rename_i t0 hpc
+      simp only [List.mem_singleton, Prod.mk.injEq] at hm
+      obtain ⟨-, rfl⟩ := hm
+      cases i
+      · exact pinv_sendT_out h ht hpc
+      · exact pinv_sendT_inn h ht hpc
+    · simp at hm
+  · split at hm
+    · simp only [List.mem_singleton, Prod.mk.injEq] at hm
+      obtain ⟨-, rfl⟩ := hm
+      have := h.todo_ok
+      rw [ht] at this
+      exact pinv_pop h ht this.2.2
+    · simp at hm
+
+
+
+theorem pinv_disableLog {p : Bool} {s s' : PState} {l : Label} {i : Dir} {rest : List Instr}
+    (h : PInv p s) (ht : s.todo = .disableLog i :: rest) (hm : (l, s') ∈ pInstr s (.disableLog i) rest) :
+    PInv p s' := by
+  have hok := h.todo_ok
+  rw [ht] at hok
+  simp only [pInstr] at hm
+  split at hm
+  · rename_i hp
+    simp only [List.mem_singleton, Prod.mk.injEq] at hm
+    obtain ⟨-, rfl⟩ := hm
+    refine pinv_pop h ht ?_
+    cases i <;> simp_all [okT, PState.present]
+  · rename_i hp
+    simp only [List.mem_singleton, Prod.mk.injEq] at hm
+    obtain ⟨-, rfl⟩ := hm
+    refine pinv_set_todo h _ ?_ ?_ ?_ (h.pdone_false ht)
+    · cases i <;> simpa [okT] using hok
+    · simp
+    · intro hh
+      have := h.hold hh
+      cases i <;> simp_all [PState.present]
+
+theorem FOk.set_closed {x : F} {p : Bool} {st : St} (h : FOk x p st) (b : Bool) : FOk { x with closed := b } p st := by
+  obtain ⟨h1, h2, h3, h4, h5⟩ := h
+  exact ⟨h1, h2, h3, h4, h5⟩
+
+theorem FOk.inEst_false_of_pc {x : F} {p : Bool} {st : St} (h : FOk x p st) (hpc : x.pc ≠ .run .established) :
+    x.inEst = false := by
+  cases hi : x.inEst
+  · rfl
+  · exact absurd (h.inEst_run hi) hpc
+
+theorem pinv_disable_close_out {p : Bool} {s : PState} (h : PInv p s) :
+    PInv p (s.setF .out { s.fo with closed := true }) := by
+  have := h.fo_ok.set_closed true
+  obtain ⟨h1, h2, h3, h4, h5, h6, h7, h8, h9, h10, h11, h12⟩ := h
+  exact ⟨h1, h2, this, h4, h5, h6, h7, h8, h9, h10, h11, h12⟩
+
+theorem pinv_disable_close_inn {p : Bool} {s : PState} (h : PInv p s) :
+    PInv p (s.setF .inn { s.fi with closed := true }) := by
+  have := h.fi_ok.set_closed true
+  obtain ⟨h1, h2, h3, h4, h5, h6, h7, h8, h9, h10, h11, h12⟩ := h
+  exact ⟨h1, h2, h3, this, h5, h6, h7, h8, h9, h10, h11, h12⟩
+
+theorem FOk.empty_slot : FOk {} false .disabled := by
+  refine ⟨?_, ?_, ?_, ?_, ?_⟩ <;> simp
+
+theorem pinv_disable_done_out {p : Bool} {s : PState} {rest : List Instr} (h : PInv p s)
+    (ht : s.todo = .disable .out :: rest) (hpc : s.fo.pc = .done) :
+    PInv p ((({ s with todo := rest }.setPresent .out false).setSt .out .disabled).setF .out {}) := by
+  have hie := h.fo_ok.inEst_false_of_pc (by simp [hpc])
+  have hd := h.pdone_false ht
+  have hh := h.hold_false ht rfl
+  obtain ⟨h1, h2, h3, h4, h5, h6, h7, h8, h9, h10, h11, h12⟩ := h
+  rw [ht] at h6
+  simp only [okT] at h6
+  refine ⟨h1, ?_, FOk.empty_slot, h4, h5, ?_, ?_, ?_, ?_, ?_, h11, ?_⟩
+  · simp [PState.setF, PState.setSt, PState.setPresent]
+  · simpa [PState.setF, PState.setSt, PState.setPresent] using okT_weaken _ _ h6 id id
+  · intro i t r hr
+    exact absurd hr (no_coll_of_okT_false h6 i t r)
+  · simp [PState.setF, PState.setSt, PState.setPresent]
+  · simpa [PState.setF, PState.setSt, PState.setPresent, hie] using h9
+  · simp [PState.setF, PState.setSt, PState.setPresent, hh]
+  · simp [PState.setF, PState.setSt, PState.setPresent, hd]
+
+theorem pinv_disable_done_inn {p : Bool} {s : PState} {rest : List Instr} (h : PInv p s)
+    (ht : s.todo = .disable .inn :: rest) (hpc : s.fi.pc = .done) :
+    PInv p ((({ s with todo := rest }.setPresent .inn false).setSt .inn .disabled).setF .inn {}) := by
+  have hie := h.fi_ok.inEst_false_of_pc (by simp [hpc])
+  have hd := h.pdone_false ht
+  have hh := h.hold_false ht rfl
+  obtain ⟨h1, h2, h3, h4, h5, h6, h7, h8, h9, h10, h11, h12⟩ := h
+  rw [ht] at h6
+  simp only [okT] at h6
+  refine ⟨h1, h2, h3, FOk.empty_slot, ?_, ?_, ?_, ?_, ?_, ?_, h11, ?_⟩
+  · simp [PState.setF, PState.setSt, PState.setPresent, innPc]
+  · simpa [PState.setF, PState.setSt, PState.setPresent] using okT_weaken _ _ h6 id id
+  · intro i t r hr
+    exact absurd hr (no_coll_of_okT_false h6 i t r)
+  · simp [PState.setF, PState.setSt, PState.setPresent]
+  · simpa [PState.setF, PState.setSt, PState.setPresent, hie] using h9
+  · simp [PState.setF, PState.setSt, PState.setPresent, hh]
+  · simp [PState.setF, PState.setSt, PState.setPresent, hd]
+
+theorem pinv_disable {p : Bool} {s s' : PState} {l : Label} {i : Dir} {rest : List Instr}
+    (h : PInv p s) (ht : s.todo = .disable i :: rest) (hm : (l, s') ∈ pInstr s (.disable i) rest) :
+    PInv p s' := by
+  simp only [pInstr, List.mem_append] at hm
+  rcases hm with hm | hm
+  · split at hm
+    · simp only [List.mem_singleton, Prod.mk.injEq] at hm
+      obtain ⟨-, rfl⟩ := hm
+      cases i
+      · exact pinv_disable_close_out h
+      · exact pinv_disable_close_inn h
+    · simp at hm
+  · split at hm
+    · rename_i hpc
+      simp only [List.mem_singleton, Prod.mk.injEq] at hm
+      obtain ⟨-, rfl⟩ := hm
+      cases i
+      · exact pinv_disable_done_out h ht hpc
+      · exact pinv_disable_done_inn h ht hpc
+    · simp at hm
+
+
+
+theorem FOk.fresh (w : Bool) :
+    FOk { pc := .req ⟨.disabled, if w then .active else .idle⟩, conn := w } true .disabled := by
+  refine ⟨?_, ?_, ?_, ?_, ?_⟩ <;> simp
+
+theorem pinv_enable_out {p : Bool} {s : PState} {w : Bool} {rest : List Instr} (h : PInv p s)
+    (ht : s.todo = .enable .out w :: rest) (hpas : s.passive = false) (hpr : s.presentO = false) :
+    PInv p ((({ s with todo := rest }.setPresent .out true).setSt .out .disabled).setF .out
+            { pc := .req ⟨.disabled, if w then .active else .idle⟩, conn := w }) := by
+  have hie := h.fo_ok.inEst_false_of_pc (by simp [h.fo_ok.empty hpr])
+  have hd := h.pdone_false ht
+  have hh := h.hold_false ht rfl
+  obtain ⟨h1, h2, h3, h4, h5, h6, h7, h8, h9, h10, h11, h12⟩ := h
+  rw [ht] at h6
+  simp only [okT] at h6
+  refine ⟨h1, ?_, FOk.fresh w, h4, h5, ?_, ?_, ?_, ?_, ?_, h11, ?_⟩
+  · simp [PState.setF, PState.setSt, PState.setPresent, hpas]
+  · simpa [PState.setF, PState.setSt, PState.setPresent] using okT_weaken _ _ h6 id id
+  · intro i t r hr
+    exact absurd hr (no_coll_of_okT_false h6 i t r)
+  · simp [PState.setF, PState.setSt, PState.setPresent]
+  · simpa [PState.setF, PState.setSt, PState.setPresent, hie] using h9
+  · simp [PState.setF, PState.setSt, PState.setPresent, hh]
+  · simp [PState.setF, PState.setSt, PState.setPresent, hd]
+
+theorem pinv_enable_inn {p : Bool} {s : PState} {w : Bool} {rest : List Instr} (h : PInv p s)
+    (ht : s.todo = .enable .inn w :: rest) (hpr : s.presentI = false) :
+    PInv p ((({ s with todo := rest }.setPresent .inn true).setSt .inn .disabled).setF .inn
+            { pc := .req ⟨.disabled, if w then .active else .idle⟩, conn := w }) := by
+  have hie := h.fi_ok.inEst_false_of_pc (by simp [h.fi_ok.empty hpr])
+  have hd := h.pdone_false ht
+  have hh := h.hold_false ht rfl
+  obtain ⟨h1, h2, h3, h4, h5, h6, h7, h8, h9, h10, h11, h12⟩ := h
+  rw [ht] at h6
+  simp only [okT] at h6
+  obtain ⟨rfl, h6⟩ := h6
+  refine ⟨h1, h2, h3, FOk.fresh true, ?_, ?_, ?_, ?_, ?_, ?_, h11, ?_⟩
+  · simp [PState.setF, PState.setSt, PState.setPresent, innPc, innT]
+  · simpa [PState.setF, PState.setSt, PState.setPresent] using okT_weaken _ _ h6 id id
+  · intro i t r hr
+    exact absurd hr (no_coll_of_okT_false h6 i t r)
+  · simp [PState.setF, PState.setSt, PState.setPresent]
+  · simpa [PState.setF, PState.setSt, PState.setPresent, hie] using h9
+  · simp [PState.setF, PState.setSt, PState.setPresent, hh]
+  · simp [PState.setF, PState.setSt, PState.setPresent, hd]
+
+theorem pinv_enable {p : Bool} {s s' : PState} {l : Label} {i : Dir} {w : Bool} {rest : List Instr}
+    (h : PInv p s) (ht : s.todo = .enable i w :: rest) (hm : (l, s') ∈ pInstr s (.enable i w) rest) :
+    PInv p s' := by
+  have hok := h.todo_ok
+  rw [ht] at hok
+  simp only [pInstr] at hm
+  split at hm
+  · simp only [List.mem_singleton, Prod.mk.injEq] at hm
+    obtain ⟨-, rfl⟩ := hm
+    refine pinv_pop h ht ?_
+    cases i
+    · exact okT_mono _ _ _ _ _ _ _ id (by simp) id hok
+    · exact okT_mono _ _ _ _ _ _ _ id id (by simp) hok.2
+  · rename_i hc
+    simp only [List.mem_singleton, Prod.mk.injEq] at hm
+    obtain ⟨-, rfl⟩ := hm
+    cases i
+    · refine pinv_enable_out h ht ?_ ?_
+      · cases hp : s.passive <;> simp_all
+      · cases hp : s.presentO <;> simp_all [PState.present]
+    · refine pinv_enable_inn h ht ?_
+      cases hp : s.presentI <;> simp_all [PState.present]
+
+theorem pinv_damp {p : Bool} {s s' : PState} {l : Label} {rest : List Instr}
+    (h : PInv p s) (ht : s.todo = .damp :: rest) (hm : (l, s') ∈ pInstr s .damp rest) :
+    PInv p s' := by
+  have hd := h.pdone_false ht
+  simp only [pInstr, List.mem_singleton, Prod.mk.injEq] at hm
+  obtain ⟨-, rfl⟩ := hm
+  obtain ⟨h1, h2, h3, h4, h5, h6, h7, h8, h9, h10, h11, h12⟩ := h
+  rw [ht] at h6
+  simp only [okT, Bool.not_eq_true'] at h6
+  obtain ⟨ho, hi, rfl⟩ := h6
+  refine ⟨h1, h2, h3, h4, h5, ?_, ?_, h8, h9, ?_, ?_, ?_⟩
+  · simp [okT]
+  · simp
+  · simp [ho, hi]
+  · simp
+  · simp [hd]
+
+theorem pinv_finish {p : Bool} {s s' : PState} {l : Label} {rest : List Instr}
+    (h : PInv p s) (ht : s.todo = .finish :: rest) (hm : (l, s') ∈ pInstr s .finish rest) :
+    PInv p s' := by
+  simp only [pInstr, List.mem_singleton, Prod.mk.injEq] at hm
+  obtain ⟨-, rfl⟩ := hm
+  obtain ⟨h1, h2, h3, h4, h5, h6, h7, h8, h9, h10, h11, h12⟩ := h
+  rw [ht] at h6
+  simp only [okT, Bool.not_eq_true'] at h6
+  obtain ⟨ho, hi, rfl⟩ := h6
+  refine ⟨h1, h2, h3, h4, h5, ?_, ?_, h8, h9, ?_, ?_, ?_⟩
+  · simp [okT]
+  · simp
+  · simp [ho, hi]
+  · simp
+  · simp [ho, hi]
+
+
+
+theorem FOk.inEst_false_of_st {x : F} {p : Bool} {st : St} (h : FOk x p st) (hst : st ≠ .established) :
+    x.inEst = false := by
+  cases hi : x.inEst
+  · rfl
+  · exact absurd (h.run_st _ (h.inEst_run hi)) hst
+
+/-- the collision kill value delivered to the in-FSM -/
+theorem pinv_coll_kill_out {p : Bool} {s : PState} {t : Trans} {rest : List Instr} {l : Label} {o' : F}
+    (h : PInv p s) (ht : s.todo = .collSel .out t :: rest) (hm : (l, o') ∈ fOnClose .inn s.fi) :
+    PInv p ({ s with todo := .disableLog .inn :: .sendT .out t :: rest }.setF .inn o') := by
+  have hd := h.pdone_false ht
+  have hh := h.hold_false ht rfl
+  obtain ⟨⟨hok, hcb, hinn, hest⟩, -⟩ := fOnClose_ok h.fi_ok hm
+  obtain ⟨h1, h2, h3, h4, h5, h6, h7, h8, h9, h10, h11, h12⟩ := h
+  have hst := h7 _ _ _ ht
+  simp only at hst
+  have hi := h4.inEst_false_of_st hst
+  have hi' := hok.inEst_false_of_st hst
+  rw [ht] at h6
+  simp only [okT] at h6
+  obtain ⟨-, rfl, hto⟩ := h6
+  refine ⟨h1, h2, h3, hok, hinn h5, ?_, ?_, h8, ?_, ?_, h11, ?_⟩
+  · simp [PState.setF, okT, hto]
+  · simp [PState.setF]
+  · simpa [PState.setF, hi, hi'] using h9
+  · simp [PState.setF, hh]
+  · simp [PState.setF, hd]
+
+theorem pinv_coll_kill_inn {p : Bool} {s : PState} {t : Trans} {rest : List Instr} {l : Label} {o' : F}
+    (h : PInv p s) (ht : s.todo = .collSel .inn t :: rest) (hm : (l, o') ∈ fOnClose .out s.fo) :
+    PInv p ({ s with todo := .disableLog .out :: .sendT .inn t :: rest }.setF .out o') := by
+  have hd := h.pdone_false ht
+  have hh := h.hold_false ht rfl
+  obtain ⟨⟨hok, hcb, hinn, hest⟩, -⟩ := fOnClose_ok h.fo_ok hm
+  obtain ⟨h1, h2, h3, h4, h5, h6, h7, h8, h9, h10, h11, h12⟩ := h
+  have hst := h7 _ _ _ ht
+  simp only at hst
+  have hi := h3.inEst_false_of_st hst
+  have hi' := hok.inEst_false_of_st hst
+  rw [ht] at h6
+  simp only [okT] at h6
+  obtain ⟨-, rfl, hto⟩ := h6
+  refine ⟨h1, h2, hok, h4, h5, ?_, ?_, h8, ?_, ?_, h11, ?_⟩
+  · simp [PState.setF, okT, hto]
+  · simp [PState.setF]
+  · simpa [PState.setF, hi, hi'] using h9
+  · simp [PState.setF, hh]
+  · simp [PState.setF, hd]
+
+/-- the collision `select` receives the other FSM's request instead -/
+theorem pinv_coll_req_out {p : Bool} {s : PState} {t ot : Trans} {rest : List Instr}
+    (h : PInv p s) (ht : s.todo = .collSel .out t :: rest) (hpc : s.fi.pc = .req ot) :
+    PInv p ({ s with todo := (if ot.to = St.established then [Instr.disableLog .out, .handle .inn ot]
+                   else [Instr.sendT .out t, .handle .inn ot]) ++ rest }.setF .inn { s.fi with pc := .wait ot }) := by
+  have hd := h.pdone_false ht
+  have hh := h.hold_false ht rfl
+  have hfi := h.fi_ok.set_pc (.wait ot) (by simp [hpc]) (by simp [hpc]) (by simp) (by simp)
+  obtain ⟨h1, h2, h3, h4, h5, h6, h7, h8, h9, h10, h11, h12⟩ := h
+  rw [ht] at h6
+  simp only [okT] at h6
+  obtain ⟨-, rfl, hto⟩ := h6
+  have hot : innT ot := by simpa [innPc, hpc] using h5
+  refine ⟨h1, h2, h3, hfi, ?_, ?_, ?_, h8, ?_, ?_, h11, ?_⟩
+  · simpa [PState.setF, innPc] using hot
+  · split <;> simp [PState.setF, okT, hto, hot]
+  · split <;> simp [PState.setF]
+  · simpa [PState.setF] using h9
+  · simp [PState.setF, hh]
+  · simp [PState.setF, hd]
+
+theorem pinv_coll_req_inn {p : Bool} {s : PState} {t ot : Trans} {rest : List Instr}
+    (h : PInv p s) (ht : s.todo = .collSel .inn t :: rest) (hpc : s.fo.pc = .req ot) :
+    PInv p ({ s with todo := (if ot.to = St.established then [Instr.disableLog .inn, .handle .out ot]
+                   else [Instr.sendT .inn t, .handle .out ot]) ++ rest }.setF .out { s.fo with pc := .wait ot }) := by
+  have hd := h.pdone_false ht
+  have hh := h.hold_false ht rfl
+  have hfo := h.fo_ok.set_pc (.wait ot) (by simp [hpc]) (by simp [hpc]) (by simp) (by simp)
+  obtain ⟨h1, h2, h3, h4, h5, h6, h7, h8, h9, h10, h11, h12⟩ := h
+  rw [ht] at h6
+  simp only [okT] at h6
+  obtain ⟨-, rfl, hto⟩ := h6
+  refine ⟨h1, h2, hfo, h4, h5, ?_, ?_, h8, ?_, ?_, h11, ?_⟩
+  · split <;> simp [PState.setF, okT, hto]
+  · split <;> simp [PState.setF]
+  · simpa [PState.setF] using h9
+  · simp [PState.setF, hh]
+  · simp [PState.setF, hd]
+
+theorem pinv_collSel {p : Bool} {s s' : PState} {l : Label} {i : Dir} {t : Trans} {rest : List Instr}
+    (h : PInv p s) (ht : s.todo = .collSel i t :: rest) (hm : (l, s') ∈ pInstr s (.collSel i t) rest) :
+    PInv p s' := by
+  simp only [pInstr, List.mem_append] at hm
+  rcases hm with (hm | hm) | hm
+  · split at hm
+    · simp only [List.mem_singleton, Prod.mk.injEq] at hm
+      obtain ⟨-, rfl⟩ := hm
+      have := h.todo_ok
+      rw [ht] at this
+      obtain ⟨-, rfl, -⟩ := this
+      exact pinv_pop h ht (by simp [okT])
+    · simp at hm
+  · split at hm
+    · rw [List.mem_map] at hm
+      obtain ⟨⟨l', o'⟩, hmem, heq⟩ := hm
+      simp only [Prod.mk.injEq] at heq
+      obtain ⟨rfl, rfl⟩ := heq
+      cases i
+      · exact pinv_coll_kill_out h ht hmem
+      · exact pinv_coll_kill_inn h ht hmem
+    · simp at hm
+  · split at hm
+    · rename_i ot hpc
+      simp only [List.mem_singleton, Prod.mk.injEq] at hm
+      obtain ⟨-, rfl⟩ := hm
+      cases i
+      · exact pinv_coll_req_out h ht hpc
+      · exact pinv_coll_req_inn h ht hpc
+    · simp at hm
+
+
+/-! ## all steps -/
+
+theorem pinv_pInstr {p : Bool} {s s' : PState} {l : Label} {ins : Instr} {rest : List Instr}
+    (h : PInv p s) (ht : s.todo = ins :: rest) (hm : (l, s') ∈ pInstr s ins rest) : PInv p s' := by
+  cases ins with
+  | logT i f t => exact pinv_logT h ht hm
+  | logErr i => exact pinv_logErr h ht hm
+  | handle i t => exact pinv_handle h ht hm
+  | sendT i t => exact pinv_sendT h ht hm
+  | disableLog i => exact pinv_disableLog h ht hm
+  | disable i => exact pinv_disable h ht hm
+  | enable i w => exact pinv_enable h ht hm
+  | collSel i t => exact pinv_collSel h ht hm
+  | damp => exact pinv_damp h ht hm
+  | finish => exact pinv_finish h ht hm
+
+theorem pinv_apiStop {p : Bool} {s : PState} (h : PInv p s) : PInv p { s with pclosed := true } := by
+  obtain ⟨h1, h2, h3, h4, h5, h6, h7, h8, h9, h10, h11, h12⟩ := h
+  exact ⟨h1, h2, h3, h4, h5, h6, h7, h8, h9, h10, h11, h12⟩
+
+theorem FOk.set_inq {x : F} {p : Bool} {st : St} (h : FOk x p st) (q : List MsgC) : FOk { x with inq := q } p st := by
+  obtain ⟨h1, h2, h3, h4, h5⟩ := h
+  exact ⟨h1, h2, h3, h4, h5⟩
+
+theorem pinv_rsend {p : Bool} {s s' : PState} {l : Label} (h : PInv p s) (hm : (l, s') ∈ rsendSteps s) :
+    PInv p s' := by
+  unfold rsendSteps at hm
+  simp only [List.mem_flatMap] at hm
+  obtain ⟨i, -, m, -, hm⟩ := hm
+  simp only [List.mem_append, List.mem_singleton, Prod.mk.injEq] at hm
+  rcases hm with hm | ⟨-, rfl⟩
+  · split at hm
+    · simp only [List.mem_singleton, Prod.mk.injEq] at hm
+      obtain ⟨-, rfl⟩ := hm
+      cases i
+      · have := h.fo_ok.set_inq (s.fo.inq ++ [m])
+        obtain ⟨h1, h2, h3, h4, h5, h6, h7, h8, h9, h10, h11, h12⟩ := h
+        exact ⟨h1, h2, this, h4, h5, h6, h7, h8, h9, h10, h11, h12⟩
+      · have := h.fi_ok.set_inq (s.fi.inq ++ [m])
+        obtain ⟨h1, h2, h3, h4, h5, h6, h7, h8, h9, h10, h11, h12⟩ := h
+        exact ⟨h1, h2, h3, this, h5, h6, h7, h8, h9, h10, h11, h12⟩
+    · simp at hm
+  · exact h
+
+theorem pinv_init (d p : Bool) : PInv p (pInit d p) := by
+  unfold pInit
+  cases p
+  · refine ⟨?_, ?_, ⟨?_, ?_, ?_, ?_, ?_⟩, ⟨?_, ?_, ?_, ?_, ?_⟩, ?_, ?_, ?_, ?_, ?_, ?_, ?_, ?_⟩ <;> simp [innPc, okT]
+  · refine ⟨?_, ?_, ⟨?_, ?_, ?_, ?_, ?_⟩, ⟨?_, ?_, ?_, ?_, ?_⟩, ?_, ?_, ?_, ?_, ?_, ?_, ?_, ?_⟩ <;> simp [innPc, okT]
+
+theorem pinv_next {p : Bool} {s s' : PState} {l : Label} (h : PInv p s) (hm : (l, s') ∈ next s) : PInv p s' := by
+  unfold next at hm
+  simp only [List.mem_append] at hm
+  rcases hm with (((hm | hm) | hm) | hm) | hm
+  · split at hm
+    · rename_i ht
+      exact pinv_pMain h ht hm
+    · rename_i ins rest ht
+      exact pinv_pInstr h ht hm
+  · exact pinv_fSteps_out h hm
+  · exact pinv_fSteps_inn h hm
+  · split at hm
+    · simp only [List.mem_singleton, Prod.mk.injEq] at hm
+      obtain ⟨-, rfl⟩ := hm
+      exact pinv_apiStop h
+    · simp at hm
+  · exact pinv_rsend h hm
+
+theorem pinv_reachable {d p : Bool} {s : PState} (h : PReach d p s) : PInv p s := by
+  induction h with
+  | init => exact pinv_init d p
+  | step _ hm ih => exact pinv_next ih hm
+
+
+/-! ## labels -/
+
+/-- labels only an FSM inside a state function can produce -/
+def fsmOnly : Label → Bool
+  | .dial | .onEstablished _ | .handler _ => true
+  | _ => false
+
+theorem fOnClose_label {i : Dir} {x y : F} {l : Label} (hm : (l, y) ∈ fOnClose i x) : fsmOnly l = false := by
+  unfold fOnClose at hm
+  repeat' split at hm
+  all_goals simp at hm
+  all_goals obtain ⟨rfl, -⟩ := hm
+  all_goals rfl
+
+theorem pMain_label {s s' : PState} {l : Label} (hm : (l, s') ∈ pMain s) : fsmOnly l = false := by
+  unfold pMain at hm
+  split at hm
+  · simp at hm
+  · simp only [List.mem_append, List.mem_flatMap] at hm
+    rcases hm with ((hm | ⟨i, -, hm⟩) | hm) | hm
+    all_goals split at hm
+    all_goals simp at hm
+    all_goals obtain ⟨rfl, -⟩ := hm
+    all_goals rfl
+
+theorem pInstr_label {s s' : PState} {l : Label} {ins : Instr} {rest : List Instr}
+    (hm : (l, s') ∈ pInstr s ins rest) : fsmOnly l = false := by
+  cases ins with
+  | collSel i t =>
+    simp only [pInstr, List.mem_append] at hm
+    rcases hm with (hm | hm) | hm
+    · split at hm
+      all_goals simp at hm
+      obtain ⟨rfl, -⟩ := hm
+      rfl
+    · split at hm
+      · rw [List.mem_map] at hm
+        obtain ⟨⟨l', o'⟩, hmem, heq⟩ := hm
+        simp only [Prod.mk.injEq] at heq
+        obtain ⟨rfl, -⟩ := heq
+        exact fOnClose_label hmem
+      · simp at hm
+    · split at hm
+      all_goals simp at hm
+      obtain ⟨rfl, -⟩ := hm
+      rfl
+  | sendT i t =>
+    simp only [pInstr, List.mem_append] at hm
+    rcases hm with hm | hm
+    all_goals split at hm
+    all_goals simp at hm
+    all_goals obtain ⟨rfl, -⟩ := hm
+    all_goals rfl
+  | disable i =>
+    simp only [pInstr, List.mem_append] at hm
+    rcases hm with hm | hm
+    all_goals split at hm
+    all_goals simp at hm
+    all_goals obtain ⟨rfl, -⟩ := hm
+    all_goals rfl
+  | disableLog i =>
+    simp only [pInstr] at hm
+    split at hm
+    all_goals simp at hm
+    all_goals obtain ⟨rfl, -⟩ := hm
+    all_goals rfl
+  | enable i w =>
+    simp only [pInstr] at hm
+    split at hm
+    all_goals simp at hm
+    all_goals obtain ⟨rfl, -⟩ := hm
+    all_goals rfl
+  | _ =>
+    simp only [pInstr, List.mem_singleton, Prod.mk.injEq] at hm
+    obtain ⟨rfl, -⟩ := hm
+    rfl
+
+theorem rsend_label {s s' : PState} {l : Label} (hm : (l, s') ∈ rsendSteps s) : ∃ i m, l = .rsend i m := by
+  unfold rsendSteps at hm
+  simp only [List.mem_flatMap] at hm
+  obtain ⟨i, -, m, -, hm⟩ := hm
+  simp only [List.mem_append, List.mem_singleton, Prod.mk.injEq] at hm
+  rcases hm with hm | ⟨rfl, -⟩
+  · split at hm
+    · simp only [List.mem_singleton, Prod.mk.injEq] at hm
+      exact ⟨i, m, hm.1⟩
+    · simp at hm
+  · exact ⟨i, m, rfl⟩
+
+theorem fSteps_absent {s : PState} {i : Dir} (h : (s.f i).pc = .absent) : fSteps s i = [] := by
+  rw [fSteps_eq]
+  simp [fRaw, h, FPc.listensClose]
+
+/-- membership in `next`, by component -/
+theorem mem_next {s s' : PState} {l : Label} (hm : (l, s') ∈ next s) :
+    (s.todo = [] ∧ (l, s') ∈ pMain s) ∨ (∃ ins rest, s.todo = ins :: rest ∧ (l, s') ∈ pInstr s ins rest) ∨
+    (l, s') ∈ fSteps s .out ∨ (l, s') ∈ fSteps s .inn ∨ l = .apiStop ∨ (l, s') ∈ rsendSteps s := by
+  unfold next at hm
+  simp only [List.mem_append] at hm
+  rcases hm with (((hm | hm) | hm) | hm) | hm
+  · split at hm
+    · rename_i ht
+      exact Or.inl ⟨ht, hm⟩
+    · rename_i ins rest ht
+      exact Or.inr (Or.inl ⟨ins, rest, ht, hm⟩)
+  · exact Or.inr (Or.inr (Or.inl hm))
+  · exact Or.inr (Or.inr (Or.inr (Or.inl hm)))
+  · split at hm
+    · simp only [List.mem_singleton, Prod.mk.injEq] at hm
+      exact Or.inr (Or.inr (Or.inr (Or.inr (Or.inl hm.1))))
+    · simp at hm
+  · exact Or.inr (Or.inr (Or.inr (Or.inr (Or.inr hm))))
+
+/-- with both slots empty only the manager and the environment move: no FSM-only label -/
+theorem no_fsm_label {s s' : PState} {l : Label} (ho : s.fo.pc = .absent) (hi : s.fi.pc = .absent)
+    (hm : (l, s') ∈ next s) : fsmOnly l = false := by
+  rcases mem_next hm with ⟨-, h⟩ | ⟨ins, rest, -, h⟩ | h | h | rfl | h
+  · exact pMain_label h
+  · exact pInstr_label h
+  · rw [fSteps_absent (i := .out) ho] at h
+    cases h
+  · rw [fSteps_absent (i := .inn) hi] at h
+    cases h
+  · rfl
+  · obtain ⟨i, m, rfl⟩ := rsend_label h
+    rfl
+
+/-- the inbound FSM never dials -/
+theorem fSteps_inn_no_dial {s s' : PState} {l : Label} {p : Bool} (h : PInv p s) (hm : (l, s') ∈ fSteps s .inn) :
+    l ≠ .dial := by
+  rw [fSteps_eq, List.mem_map] at hm
+  obtain ⟨⟨l', y⟩, hmem, heq⟩ := hm
+  simp only [Prod.mk.injEq] at heq
+  obtain ⟨rfl, -⟩ := heq
+  intro hl
+  have := (fRaw_ok h.fi_ok hmem).2 hl
+  have hinn := h.fi_inn
+  rcases this with h | h | h
+  · cases h
+  · simp [h, innPc] at hinn
+  · simp [h, innPc] at hinn
+
+
+/-! ## explicit paths (non-vacuity witnesses) -/
+
+/-- follow the `k`-th alternative of `next` at each step -/
+def follow : PState → List Nat → Option PState
+  | s, [] => some s
+  | s, k :: ks =>
+    match (next s)[k]? with
+    | some (_, s') => follow s' ks
+    | none => none
+
+theorem follow_reach {d p : Bool} : ∀ (ks : List Nat) (s s' : PState), PReach d p s → follow s ks = some s' →
+    PReach d p s' := by
+  intro ks
+  induction ks with
+  | nil =>
+    intro s s' h hf
+    simp only [follow, Option.some.injEq] at hf
+    exact hf ▸ h
+  | cons k ks ih =>
+    intro s s' h hf
+    simp only [follow] at hf
+    split at hf
+    · rename_i l s1 hk
+      exact ih s1 s' (PReach.step (l := l) h (List.mem_of_getElem? hk)) hf
+    · cases hf
+
+theorem exists_of_follow {d p : Bool} (P : PState → Bool) (ks : List Nat)
+    (h : (follow (pInit d p) ks).any P = true) : ∃ s, PReach d p s ∧ P s = true := by
+  cases hf : follow (pInit d p) ks with
+  | none => simp [hf] at h
+  | some s' =>
+    rw [hf] at h
+    exact ⟨s', follow_reach ks _ _ .init hf, by simpa using h⟩
 
 end CoreBGP.Lemmas
+
